@@ -330,17 +330,7 @@ func (r *Run) load(p *PtrV) Value {
 	o := r.robj(p.obj)
 	if p.sym != nil {
 		arr := navigate(o.val, p.path).(*ArrayV)
-		// ite chain over [lo, lo+n)
-		var res *Term
-		for i := p.lo + p.n - 1; i >= p.lo; i-- {
-			e := arr.e[i].(*Term)
-			if res == nil {
-				res = e
-			} else {
-				res = r.ts.Ite(r.ts.Eq(p.sym, r.ts.Const(64, uint64(i))), e, res)
-			}
-		}
-		return res
+		return r.selectTerm(arr.e, p.sym, p.lo, p.n)
 	}
 	return copyVal(navigate(o.val, p.path))
 }
